@@ -485,8 +485,10 @@ class The(ResultQuantifier[T]):
     def evaluate(self) -> TypingUnion[Iterable[T], T, UnificationDict]:
         completed = False
         try:
-            result = self._evaluate_()
-            result = self._process_result_(result)
+            # like An.evaluate: predicates run and instances are constructed concretely during evaluation.
+            with symbolic_mode(mode=None):
+                result = self._evaluate_()
+                result = self._process_result_(result)
             completed = True
         finally:
             self._reset_cache_()
